@@ -118,6 +118,11 @@ def run_case(case):
         base = rm.Base(sig, conds, extra_atoms=sorted(extra))
         st = rm.Setup(base, weakly)
         nontriv_rows = [bool(base.q(B, A)[0] & st.feas) and bool(base.q(B, A)[1] & st.feas) for (B, A) in qs]
+    # a share of the cases hands ONE BeliefBase object to the managers of all back-ends (and first to a manager of
+    # the other mode): whatever a back-end leaves on the object must not reach the next one
+    shared_bb = impl.mk_bb(sig, conds) if rng.random() < 0.2 else None
+    if shared_bb is not None:
+        bump('cases_with_one_base_object_for_all_backends')
     for system in ('system-w', 'lex_inf', 'c-inference'):
         if system == 'c-inference' and (weakly or len(conds) > 25):
             continue
@@ -126,7 +131,14 @@ def run_case(case):
             if system == 'c-inference' and p.lower() == 'z3':
                 continue
             try:
-                cols[p] = impl.results(impl.ask(impl.mk_bb(sig, conds), system, p, impl.mk_queries(qs), weakly=weakly, **par))
+                bb_ = shared_bb if shared_bb is not None else impl.mk_bb(sig, conds)
+                if shared_bb is not None and system != 'c-inference':
+                    try:
+                        impl.ask(bb_, system, p, impl.mk_queries(qs[:1]), weakly=not weakly)
+                    except Exception as e_:
+                        if type(e_).__name__ == 'SoftTimeout':
+                            raise
+                cols[p] = impl.results(impl.ask(bb_, system, p, impl.mk_queries(qs), weakly=weakly, **par))
             except Exception as e:
                 if type(e).__name__ == 'SoftTimeout':
                     raise
